@@ -4,19 +4,7 @@ pub mod types;
 
 #[cfg(kani)]
 mod h_gen;
-
 #[cfg(kani)]
-mod h_probe {
-    use crate::contract::*;
-    use crate::drive::*;
-    use rustfft::algorithm::*;
-    #[kani::proof]
-    #[kani::unwind(35)]
-    #[kani::stub(transpose::transpose, crate::drive::transpose_model)]
-    fn mr23_static() {
-        let d = any_dir();
-        let f = MixedRadix::new(arc_tag(any_contract::<2>(8, d)), arc_tag(any_contract::<3>(8, d)));
-        well::<12, 26, _>(&f, Entry::PS, 2);
-        std::mem::forget(f);
-    }
-}
+mod h_helpers;
+#[cfg(kani)]
+mod h_simd;
